@@ -39,6 +39,7 @@ class CallLog:
         self.ncalls = 0
         self.method_calls: dict[int, int] = {}     # id(node) -> invocations of its map_* method
         self.method_order: list[int] = []
+        self.instance_calls: dict[tuple[int, int], int] = {}
         # table extraction: only the probe node's own method runs; calls on its
         # children are recorded and answered by a neutral stand-in, so a refusal
         # or omission is attributed to exactly one (mapper, kind) row
@@ -111,6 +112,10 @@ def logging_class(cls: type, log_getter: Callable[[], CallLog | None]) -> type:
             lg = log_getter()
             if lg is not None and reflect._is_node(expr):
                 lg.method_calls[id(expr)] = lg.method_calls.get(id(expr), 0) + 1
+                # per mapper INSTANCE: a function body is walked by a clone with its own cache
+                k = (id(self), id(expr))
+                lg.instance_calls[k] = lg.instance_calls.get(k, 0) + 1
+                lg.keep.append(self)
                 lg.method_order.append(id(expr))
                 lg.keep.append(expr)
             return orig(self, expr, *a, **kw)
@@ -859,9 +864,9 @@ def render_witness(t: Tables) -> str:
     L = ["/- GENERATED by harness/extract/children.py — do not edit. -/",
          "import PtGen.Children", "namespace PtGen", "open Pt.Tables", ""]
     L.append("/-- full-strength C13 table statement: no known-finding exclusions -/")
-    L.append("def ChildrenFull : Prop := childrenTables.complete false = true")
+    L.append("abbrev ChildrenFull : Prop := childrenTables.complete false = true")
     L.append("/-- full-strength C20 table statement: no known-finding exclusions -/")
-    L.append("def UsersFull : Prop := usersTables.agreeAll false = true")
+    L.append("abbrev UsersFull : Prop := usersTables.agreeAll false = true")
     L.append("")
     if missing_rows(t):
         L.append("/-- today's tables exhibit missed children (witness rows are replayed on the real code) -/")
